@@ -122,5 +122,24 @@ pub fn run(ctx: &Ctx) -> Result<()> {
 		col.spec_cases += 1;
 		match r { Ok(Err(_)) => {} Ok(Ok(_)) => col.violation("bad-pipeline-accepted", t, "", "an invalid pipeline was built without error"), Err(m) => col.violation("build-panic", t, "", &m) }
 	}
+	// build-level: the operations are chained in the order they are written.  The parameters an operation
+	// advertises are the cumulative effect of the operations before it, so in the Debug nesting of
+	// `r | u1 | u2 | u3` the parameters of the prefixes `r | u1 | u2`, `r | u1` must appear in that order.
+	for k in 0..(if ctx.thorough { 40 } else { 8 }) {
+		let n_ops = 2 + (k % 3);
+		let mut ms: Vec<u8> = (0..n_ops).map(|i| 1 + 2 * i as u8 + (k as u8 % 2)).collect();   // strictly increasing minimum zooms
+		if k % 4 == 3 { ms = ms.iter().map(|m| 20 - m).collect(); }                                 // or strictly decreasing maximum zooms
+		let key = if k % 4 == 3 { "max" } else { "min" };
+		let steps: Vec<String> = ms.iter().map(|m| format!("filter_zoom {key}={m}")).collect();
+		let text = |j: usize| format!("from_debug format=pbf | {}", steps[..j].join(" | "));
+		let built: Vec<Result<Box<dyn versatiles_pipeline::OperationTrait>, String>> = (1..=n_ops).map(|j| match guarded(|| rt.block_on(factory().operation_from_vpl(&text(j)))) { Ok(Ok(o)) => Ok(o), Ok(Err(e)) => Err(format!("{e:#}")), Err(m) => Err(m) }).collect();
+		col.spec_cases += 1;
+		if let Some(Err(e)) = built.iter().find(|b| b.is_err()) { col.violation("build-error", &text(n_ops), "", e); continue; }
+		let ops: Vec<&Box<dyn versatiles_pipeline::OperationTrait>> = built.iter().map(|b| b.as_ref().unwrap()).collect();
+		let dbg = format!("{:?}", ops[n_ops - 1]);
+		let mut at = 0usize; let mut ok = true;
+		for j in (0..n_ops).rev() { let p = format!("{:?}", ops[j].get_parameters()); match dbg[at..].find(&p) { Some(i) => at += i + p.len(), None => { ok = false; break; } } }
+		if !ok { col.violation("operation-order", &text(n_ops), "", &format!("the operation built from {:?} does not nest the operations in written order (the advertised parameters of its prefixes do not appear outermost-to-innermost)", text(n_ops))); }
+	}
 	col.finish()
 }
